@@ -66,9 +66,14 @@ void ddp_replace_char_in_string(ddpstring *str, ddpchar ch, ddpint index) {
 	if (oldCharLen == newCharLen) { // no need for allocations
 		memcpy(str->str + i, newChar, newCharLen);
 		return;
-	} else if (oldCharLen > newCharLen) { // no need for allocations
+	} else if (oldCharLen > newCharLen) {
 		memcpy(str->str + i, newChar, newCharLen);
 		memmove(str->str + i + newCharLen, str->str + i + oldCharLen, str->cap - i - oldCharLen);
+		// give the freed bytes back: every consumer (ddp_string_equal, the verkettet functions,
+		// the for-each loop of the compiler) relies on cap == strlen + 1
+		size_t newStrCap = str->cap - oldCharLen + newCharLen;
+		str->str = ddp_reallocate(str->str, str->cap, newStrCap);
+		str->cap = newStrCap;
 	} else {
 		size_t newStrCap = str->cap - oldCharLen + newCharLen;
 		char *newStr = DDP_ALLOCATE(char, newStrCap);
